@@ -157,8 +157,9 @@ end Props.C02
 every curve with `CurveOk p C` (p prime ≠ 2, n an odd prime, generator reduced, on the curve, of order n) and
 `p ≡ 3 (mod 4)`.  The statements are about the raw integer pairs the driver computes with (`Btc.EC.ops C`), the
 scheme functions being the same definitions as above (proofs: Proofs/E2E/C02.lean).  For secp256k1 (the generated
-constants `Gen.Curves.secp256k1`) every `CurveOk` field except the primality of `p` and of `n` is computed by the
-kernel (`Btc.E2E.secpOk`; `n•G = ∞` by running the 256-step double-and-add), so those two are the only hypotheses. -/
+constants `Gen.Curves.secp256k1`) every `CurveOk` field is established by the kernel (`Btc.E2E.secpOk`; `n•G = ∞` by
+running the 256-step double-and-add; primality of `p` and of `n` by Pratt certificates, `Btc.E2E.secp256k1_p_prime`,
+`secp256k1_n_prime`), so the secp256k1 theorems carry no hypothesis about the curve. -/
 namespace Props.C02
 open Btc Btc.EC Btc.C01 Btc.E2E Btc.Ecdsa
 
@@ -185,29 +186,29 @@ theorem ecdsa_recover_signer_ec {p : ℕ} [Fact p.Prime] {C : Curve} (K : CurveO
       (EC.ops C).eq Q' ((EC.ops C).mul q C.G) = true :=
   Btc.E2E.ecdsa_recover_signer_ec K h34 hk hq h primeOrder lowerS' hl'
 
-/-- T1 on secp256k1: the ONLY hypotheses are the primality of `p` and of `n` -/
-theorem ecdsa_sign_verifies_secp256k1 (hp : Nat.Prime secp256k1_p) (hn : Nat.Prime secp256k1_n)
+/-- T1 on secp256k1, unconditional (primality of `p`, `n` proved: Pratt certificates) -/
+theorem ecdsa_sign_verifies_secp256k1
     {c q k : ℤ} {lowerS : Bool} {r s kid : ℤ} (hk : 0 < k ∧ k < secp256k1.n)
     (h : signRecoverable (EC.ops secp256k1) c q k lowerS = .ok (r, s, kid)) :
     verify (EC.ops secp256k1) c ((EC.ops secp256k1).mul q secp256k1.G) r s = true ∧
       (lowerS = true → s ≤ secp256k1.n / 2) :=
-  Btc.E2E.ecdsa_sign_verifies_secp256k1 hp hn hk h
+  Btc.E2E.ecdsa_sign_verifies_secp256k1 hk h
 
 /-- T2 on secp256k1 -/
-theorem ecdsa_verify_iff_sec1_secp256k1 (hp : Nat.Prime secp256k1_p) (hn : Nat.Prime secp256k1_n)
-    (c : ℤ) (Q : SecpPt hp) (r s : ℤ) :
-    verify (EC.ops secp256k1) c Q.1 r s = true ↔ SEC1 (secpLawful hp hn) c Q r s :=
-  Btc.E2E.ecdsa_verify_iff_sec1_secp256k1 hp hn c Q r s
+theorem ecdsa_verify_iff_sec1_secp256k1
+    (c : ℤ) (Q : SecpPt) (r s : ℤ) :
+    verify (EC.ops secp256k1) c Q.1 r s = true ↔ SEC1 secpLawful c Q r s :=
+  Btc.E2E.ecdsa_verify_iff_sec1_secp256k1 c Q r s
 
 /-- T3 on secp256k1 -/
-theorem ecdsa_recover_signer_secp256k1 (hp : Nat.Prime secp256k1_p) (hn : Nat.Prime secp256k1_n)
+theorem ecdsa_recover_signer_secp256k1
     {c q k : ℤ} {lowerS : Bool} {r s kid : ℤ}
     (hk : 0 < k ∧ k < secp256k1.n) (hq : 0 < q ∧ q < secp256k1.n)
     (h : signRecoverable (EC.ops secp256k1) c q k lowerS = .ok (r, s, kid))
     (primeOrder lowerS' : Bool) (hl' : lowerS' = true → lowerS = true) :
     ∃ Q', recover (EC.ops secp256k1) primeOrder kid c r s lowerS' = .ok Q' ∧
       (EC.ops secp256k1).eq Q' ((EC.ops secp256k1).mul q secp256k1.G) = true :=
-  Btc.E2E.ecdsa_recover_signer_secp256k1 hp hn hk hq h primeOrder lowerS' hl'
+  Btc.E2E.ecdsa_recover_signer_secp256k1 hk hq h primeOrder lowerS' hl'
 
 -- non-vacuity: `CurveOk` is PROVED for `y² = x³ + 7` over `F₄₃` (31 points), so on it nothing is assumed: an actual
 -- signing run of btclib's arithmetic, and the theorems' verdicts on it
